@@ -14,7 +14,7 @@ use serde_json::{json, Value as J};
 use std::collections::{BTreeMap, BTreeSet};
 use wirefilter::{ExecutionContext, GetType, Scheme};
 
-const FEEDS: [&str; 4] = ["str", "slice", "reader", "value"];
+const FEEDS: [&str; 5] = ["str", "slice", "reader", "value", "c-api-lent-buffer"];
 
 /// Deserialize `text` into a fresh context through one of the four feeds and
 /// hand the context to `f` (the context may borrow from `text`).
@@ -58,7 +58,7 @@ fn load<R>(
                 Err(e) => f(Err(e)),
             }
         }
-        _ => {
+        3 => {
             let v: J = match serde_json::from_str(text) {
                 Ok(v) => v,
                 Err(e) => return f(Err(format!("not JSON: {}", e))),
@@ -67,6 +67,29 @@ fn load<R>(
             match (&mut ctx).deserialize(v).map_err(|e| e.to_string()) {
                 Ok(()) => f(Ok(&ctx)),
                 Err(e) => f(Err(e)),
+            }
+        }
+        _ => {
+            // the C entry point: the caller lends the buffer for the duration
+            // of the call only, so it is overwritten and freed before the
+            // context is looked at
+            let mut fctx = wirefilter_ffi::ExecutionContext::from(ExecutionContext::<()>::new(scheme));
+            let mut buf: Vec<u8> = text.as_bytes().to_vec();
+            let ok = wirefilter_ffi::wirefilter_deserialize_json_to_execution_context(&mut fctx, buf.as_ptr(), buf.len());
+            for b in buf.iter_mut() {
+                *b = b'#';
+            }
+            drop(buf);
+            if ok {
+                f(Ok(&fctx))
+            } else {
+                let p = wirefilter_ffi::wirefilter_get_last_error();
+                let msg = if p.is_null() {
+                    "false without a last-error message".to_string()
+                } else {
+                    unsafe { std::ffi::CStr::from_ptr(p) }.to_string_lossy().into_owned()
+                };
+                f(Err(msg))
             }
         }
     })
@@ -436,7 +459,7 @@ fn round_trip(run: &Run, l: &mut Local, fam: &str, i: u64, eng: &Eng, vals: &Ctx
             json!({"json": text, "expected": want}),
         );
     }
-    for feed in 0..4 {
+    for feed in 0..5 {
         l.evals += 1;
         let res = load(&eng.scheme, &text, feed, |loaded| match loaded {
             Err(e) => Err(format!("load failed: {}", e)),
@@ -463,7 +486,11 @@ fn round_trip(run: &Run, l: &mut Local, fam: &str, i: u64, eng: &Eng, vals: &Ctx
         match res {
             Ok(Ok(())) => l.count("round_trips_ok"),
             Ok(Err(e)) => {
-                let kind: String = e.chars().map(|c| if c.is_ascii_digit() { '#' } else { c }).take(70).collect();
+                let kind: String = if e.starts_with("filter `") {
+                    "filter evaluates differently after the round trip".to_string()
+                } else {
+                    e.chars().map(|c| if c.is_ascii_digit() { '#' } else { c }).take(70).collect()
+                };
                 run.violation(
                     &format!(
                         "C14/round-trip/feed={}/scheme-has-list={}/{}",
